@@ -316,6 +316,11 @@ def extra_cells(m, g):
         ("sunmd5", "rounds-max", L(b"$md5,rounds=4294963199$") + S(8) + L(b"$"), [0] * 12 + [8] * 10 + [0] + [1] * 8 + [0]),
         ("sha1crypt", "rounds-max+salt64", L(b"$sha1$4294967295$") + S(64) + L(b"$"), [0] * 6 + [8] * 10 + [0] + [1] * 64 + [0]),
         ("nt", "trailing", L(b"$3$$") + S(6), [0] * 10),
+        # a salt that looks like a rounds field: only the explicit rounds= in front of it keeps it a salt when H is re-parsed
+        ("sha256crypt", "salt-looks-like-rounds", L(b"$5$rounds=5000$rounds=6000$"), [0] * 10 + [8] * 4 + [0] + [1] * 11 + [0]),
+        ("sha512crypt", "salt-looks-like-rounds", L(b"$6$rounds=5000$rounds=6000$"), [0] * 10 + [8] * 4 + [0] + [1] * 11 + [0]),
+        ("sha1crypt", "cost-plus", L(b"$sha1$+12$") + S(8), [0] * 6 + [8] * 3 + [0] + [1] * 8),
+        ("sha1crypt", "cost-leading-zeros", L(b"$sha1$0012$") + S(8), [0] * 6 + [8] * 4 + [0] + [1] * 8),
         ("sha1crypt", "cost0", L(b"$sha1$0$") + S(8), [0] * 6 + [8] + [0] + [1] * 8),
         ("sha1crypt", "cost-empty", L(b"$sha1$$") + S(8), [0] * 7 + [1] * 8),
         # F5: the longest salts whose hash still fits the output field (a hash of 340..383 characters used as a setting)
